@@ -238,7 +238,7 @@ def _feature_oracle(ctx, V, F, declared, only_border, corner_order, flag_corners
                 undecided.add(i)
             elif d < thr:
                 want.add(i)
-    def expected(ob):
+    def expected(ob, N=N, tol=1e-9):
         w, und = set(), set()
         for i, e in enumerate(edges):
             if e in ref.border_edges:
@@ -251,7 +251,7 @@ def _feature_oracle(ctx, V, F, declared, only_border, corner_order, flag_corners
             for thr, cond in ((0.5, True), (0.8, e in dset)):
                 if not cond:
                     continue
-                if abs(d - thr) <= 1e-9:
+                if abs(d - thr) <= tol:
                     und.add(i)
                 elif d < thr:
                     w.add(i)
@@ -291,6 +291,36 @@ def _feature_oracle(ctx, V, F, declared, only_border, corner_order, flag_corners
         if gv2 != {v for e in g2 for v in edges[e]}:
             ctx.violation("features", "redetect", "feature_vertices_inconsistent_after_previous_detection", "feature_vertices are not the end points of the feature edges on a re-run")
             return
+    def deformation_history():
+        # history: the SAME mesh object is deformed in place (non-rigid linear map) and analysed again: the decision must follow the current geometry.
+        # (The harness stored no face normals itself; the detector is only documented to reuse a "normals" attribute the user provided.)
+        if all(len(f) == 3 for f in F):
+            hr = random.Random(len(V) * 7919 + len(F))
+            Va0 = np.asarray(V, float)
+            A = np.array([[1.0, hr.uniform(-0.5, 0.5), 0.0], [0.0, hr.uniform(0.6, 1.5), hr.uniform(-0.4, 0.4)], [hr.uniform(-0.3, 0.3), hr.uniform(-0.9, 0.9), hr.uniform(0.3, 2.5)]])
+            Vd = Va0 @ A.T
+            with np.errstate(all="ignore"):
+                Nd = _normals(Vd, F)
+            if abs(np.linalg.det(A)) > 0.1 and all(np.all(np.isfinite(n)) for n in Nd):
+                for i in range(len(Vd)):
+                    m.vertices[i] = M.Vec(Vd[i].copy())
+                for rep, ob in enumerate((only_border, False)):
+                    w3, und3 = expected(ob, N=Nd, tol=1e-7)
+                    ok, det3 = ctx.call("FeatureEdgeDetector", lambda: M.processing.FeatureEdgeDetector(only_border=ob, flag_corners=flag_corners, corner_order=corner_order,
+                                                                                                        verbose=False), monitor="features")
+                    ok, _ = ctx.call("detect_after_deformation", det3.detect, m, monitor="features")
+                    ctx.obs("features", "redetect_after_deformation")
+                    try:
+                        g3 = {int(e) for e in det3.feature_edges}
+                    except Exception:
+                        g3 = None
+                    if g3 is None or ((g3 ^ w3) - und3):
+                        ctx.violation("features", "redetect", "edge_set_does_not_follow_the_deformed_geometry",
+                                      "after the vertices of the analysed mesh were moved in place, a new detection does not flag the edges of the current geometry",
+                                      n_wrong=None if g3 is None else len((g3 ^ w3) - und3), only_border=ob)
+                        return
+                for i in range(len(Va0)):
+                    m.vertices[i] = M.Vec(Va0[i].copy())
     wrong = (got ^ want) - undecided
     if wrong:
         e = sorted(wrong)[0]
@@ -374,6 +404,7 @@ def _feature_oracle(ctx, V, F, declared, only_border, corner_order, flag_corners
         except Exception:
             ok_graph = False
         ctx.check(ok_graph, "derived", "feature_graph", "graph_not_isomorphic_to_edge_set", "feature graph does not have the feature vertices / edges")
+    deformation_history()
 
 
 def _hinge_case(desc, ctx):
